@@ -1,0 +1,58 @@
+//! Hooks for deterministic-simulation checks that live outside this
+//! repository. Compiled only with `--cfg max_sixty_prql_verif`; without the
+//! flag neither this module nor any of its call sites exist.
+//!
+//! A harness registers one callback with [set_callback]. The library then
+//! reports every acquisition/release of its process-global lock
+//! (`CURRENT_LOG`) and every entry into a lazily initialised static, *before*
+//! touching the real primitive, so that a simulated scheduler can decide who
+//! runs next. With no callback registered the guards do nothing.
+
+use std::sync::OnceLock;
+
+#[derive(Debug, Clone, Copy, PartialEq, Eq)]
+pub enum Event {
+    /// About to acquire the named lock (`write` = exclusive).
+    Acquire { name: &'static str, write: bool },
+    /// The named lock has been released.
+    Release { name: &'static str, write: bool },
+    /// About to call `get_or_init` on the named static; `done` tells whether it
+    /// was already initialised when looked at.
+    OnceEnter { name: &'static str, done: bool },
+    /// `get_or_init` on the named static has returned.
+    OnceExit { name: &'static str, done: bool },
+}
+
+static CALLBACK: OnceLock<fn(Event)> = OnceLock::new();
+
+/// Registers the callback. Returns false if one was registered already.
+pub fn set_callback(f: fn(Event)) -> bool {
+    CALLBACK.set(f).is_ok()
+}
+
+fn emit(e: Event) {
+    if let Some(f) = CALLBACK.get() {
+        f(e)
+    }
+}
+
+/// Emits its closing event when dropped. Declare it *before* the real guard
+/// so that it is dropped after it.
+#[must_use]
+pub struct Guard(Event);
+
+impl Drop for Guard {
+    fn drop(&mut self) {
+        emit(self.0)
+    }
+}
+
+pub fn rw(name: &'static str, write: bool) -> Guard {
+    emit(Event::Acquire { name, write });
+    Guard(Event::Release { name, write })
+}
+
+pub fn once(name: &'static str, done: bool) -> Guard {
+    emit(Event::OnceEnter { name, done });
+    Guard(Event::OnceExit { name, done })
+}
